@@ -364,9 +364,20 @@ def _last_term_idiom(f):
     inc = AI.effects(loop["inc"]) if loop.get("inc") else []
     step = inc[0][2] if inc and inc[0][0] == "inc" else None
     fwd_forms = {"@i{0..$1}"}
-    desc_forms = {"@i{($1 - 1)..>=0}": "i", "(@i{$1..>0} - 1)": "pos-1", "@i{($1 - 1)..>-1}": "i"}
-    if pos in desc_forms and step == -1:
-        pass
+    # descending scans: lowest position visited from the loop's bound
+    low = None
+    m1 = _re.fullmatch(r"@i\{\(\$1 - 1\)\.\.(>=|>)(-?\d+)\}", pos)
+    m2 = _re.fullmatch(r"\(@i\{\$1\.\.(>=|>)(-?\d+)\} - 1\)", pos)
+    if m1:
+        low = int(m1.group(2)) + (1 if m1.group(1) == ">" else 0)
+    elif m2:
+        low = int(m2.group(2)) + (1 if m2.group(1) == ">" else 0) - 1
+    if low is not None and step == -1:
+        if low > 0:
+            return "range: the scan stops at position %d, so a term at position %s of the right side is never taken " \
+                   "as the rule's last term (a prefix-operator rule gets precedence 0)" % (low, "0" if low == 1 else "< %d" % low)
+        if low < 0:
+            return "range: the scan runs down to position %d, below the first element" % low
     elif pos in fwd_forms and step == 1:
         return "direction: the right side is scanned from the front and the FIRST term met is returned; the rule's " \
                "precedence comes from its LAST term"
